@@ -218,3 +218,52 @@ Theorem C06_id_generated_only_when_absent_refuted :
   send_ids GenWhenAbsent (id_shape 1 0) 1000 2000 = (0%N, 2000%N).
 Proof. exact absent_only_breaks_empty_id. Qed.
 Print Assumptions C06_id_generated_only_when_absent_refuted.
+
+(* ====================================================================== *)
+(* Receipts behind the multiplexer (receipts.Handle)                       *)
+(* ====================================================================== *)
+From XV Require Import C06.ModelExt C06.ProofsRx.
+
+(* With the handler registered for every message type (table lemma
+   [receipts_registered_for_every_message_type]) no receipt is lost in the
+   multiplexer, and every schedule of the routed system is a schedule of the
+   receipts system, so the receipts theorems of PropertiesExt.v hold behind the
+   multiplexer for every message type. *)
+Theorem C06_receipts_routed_for_every_type : forall s ty id,
+  rxr_step routes_all s (RUnrouted ty id) = None.
+Proof. exact rxr_never_unrouted. Qed.
+Print Assumptions C06_receipts_routed_for_every_type.
+
+Theorem C06_receipts_routed_refines : forall tr s s',
+  run (rxr_step routes_all) s tr = Some s' -> run (rx_step true) s (rxr_project tr) = Some s'.
+Proof. exact rxr_projects. Qed.
+Print Assumptions C06_receipts_routed_refines.
+
+Theorem C06_receipts_routed_outcome : forall tr s i x o,
+  run (rxr_step routes_all) rx_init tr = Some s -> nth_error (rx_snd s) i = Some x -> x_pc x = XRet o ->
+  match o with
+  | XOk => exists q, In (RNotified q (x_id x) i) (rx_hist s)
+  | XCtxErr => x_canc x = true
+  | XSendErr => True
+  end.
+Proof. exact rxr_outcome_run. Qed.
+Print Assumptions C06_receipts_routed_outcome.
+
+(* a receipt of any message type brings its sender back with nil *)
+Theorem C06_receipts_receipt_of_any_type_returns : forall ty,
+  exists s, run (rxr_step routes_all) rx_init
+              [RL (XStart 1); RL (XSendOk 0); RArrive ty 1; RL XLookup; RL XNotify; RL (XRecv 0)] = Some s /\
+            map snd_code (rx_snd s) = [XCOk].
+Proof. exact rxr_receipt_reaches_sender. Qed.
+Print Assumptions C06_receipts_receipt_of_any_type_returns.
+
+(* What the table lemma excludes: a registration without "headline". *)
+Theorem C06_receipts_missing_type_refuted :
+  exists s x, run (rxr_step routes_without_headline) rx_init
+                [RL (XStart 1); RL (XSendOk 0); RUnrouted 3 1] = Some s /\
+    nth_error (rx_snd s) 0 = Some x /\ x_pc x = XWait /\ x_tok x = false /\ rx_h s = HIdle /\ rx_hist s = [] /\
+    rxr_step routes_without_headline s (RArrive 3 1) = None /\
+    rxr_step routes_without_headline s (RL (XRecv 0)) = None /\
+    rxr_step routes_without_headline s (RL (XCtxDone 0)) = None.
+Proof. exact rxr_missing_type_loses_receipt. Qed.
+Print Assumptions C06_receipts_missing_type_refuted.
